@@ -58,10 +58,17 @@ func (h *memHandle) Stat() (fs.FileInfo, error) {
 	return memInfo{h.name, int64(len(h.cur()))}, nil
 }
 
+// shortRead > 0: a Read returns at most that many bytes although more are available (legal for any io.Reader;
+// network and FUSE file systems, interrupted reads).
+var shortRead int
+
 func (h *memHandle) Read(p []byte) (int, error) {
 	d := h.cur()
 	if h.pos >= int64(len(d)) {
 		return 0, io.EOF
+	}
+	if shortRead > 0 && len(p) > shortRead {
+		p = p[:shortRead]
 	}
 	n := copy(p, d[h.pos:])
 	h.pos += int64(n)
@@ -338,6 +345,8 @@ type c20case struct {
 	// Hold >= 1: the consumer of Lines() stops after Hold-1 lines of the initial files; the first operation is
 	// applied while the initial read is parked there (if it still is), then the consumer resumes
 	Hold int `json:"hold,omitempty"`
+	// ShortRead > 0: every Read of the in-memory file system returns at most that many bytes
+	ShortRead int `json:"short_read,omitempty"`
 }
 
 // runCase runs one initial directory + op sequence; returns a mismatch message.
@@ -463,7 +472,9 @@ func runC20(t *testing.T, run *mc.Run) int {
 						}
 					}
 				}
+				shortRead = rp.ShortRead
 				m := runCaseHold(t, d, ops, rp.Hold)
+				shortRead = 0
 				fmt.Println("result:", m)
 				if m != "" {
 					fmt.Printf("VIOLATION property=C20 replay=%s\n", run.Replay)
@@ -488,59 +499,68 @@ func runC20(t *testing.T, run *mc.Run) int {
 		} else {
 			class = "ops:" + names[len(names)-1]
 		}
-		run.Violation("C20:"+class, c20case{Init: d.Name, Ops: names}, fmt.Sprintf("initial directory %q, operations %v: %s", d.Name, names, m))
+		run.Violation("C20:"+class, c20case{Init: d.Name, Ops: names, ShortRead: shortRead}, fmt.Sprintf("initial directory %q, operations %v: %s", d.Name, names, m))
 	}
-	for _, d := range small {
-		var rec func(seq []opKind)
-		rec = func(seq []opKind) {
-			if run.Expired() {
-				complete = false
-				return
-			}
-			n++
-			hasRot := false
-			for _, o := range seq {
-				if o == opRotate || o == opTruncWrite || o == opRemoveCreate {
-					hasRot = true
+	for pass := 0; pass < 2; pass++ {
+		// second pass: the same sequences (one operation shorter) on a file system that reads short
+		if pass == 1 {
+			shortRead = 7
+			depth--
+		}
+		for _, d := range small {
+			var rec func(seq []opKind)
+			rec = func(seq []opKind) {
+				if run.Expired() {
+					complete = false
+					return
 				}
-			}
-			if hasRot {
-				withRotation++
-			}
-			if m := runCase(t, d, seq); m != "" {
-				report(d, seq, m)
-			}
-			if len(samples) < 4 && len(seq) == depth && n%997 == 0 {
-				var names []string
+				n++
+				hasRot := false
 				for _, o := range seq {
-					names = append(names, opNames[o])
+					if o == opRotate || o == opTruncWrite || o == opRemoveCreate {
+						hasRot = true
+					}
 				}
-				samples = append(samples, map[string]any{"init": d.Name, "ops": names})
-			}
-			if len(seq) == depth {
-				return
-			}
-			for k := opKind(0); k < nOps; k++ {
-				if k == opComplete {
-					// only meaningful when a fragment is pending
-					pend := strings.HasSuffix(d.Name, "fragment+2-rotated") && len(seq) == 0
+				if hasRot {
+					withRotation++
+				}
+				if m := runCase(t, d, seq); m != "" {
+					report(d, seq, m)
+				}
+				if len(samples) < 4 && len(seq) == depth && n%997 == 0 {
+					var names []string
 					for _, o := range seq {
-						switch o {
-						case opFragment, opLongFragment:
-							pend = true
-						case opAppend2, opComplete, opLong, opRotate, opTruncWrite, opRemoveCreate, opEcho:
-							pend = false
+						names = append(names, opNames[o])
+					}
+					samples = append(samples, map[string]any{"init": d.Name, "ops": names})
+				}
+				if len(seq) == depth {
+					return
+				}
+				for k := opKind(0); k < nOps; k++ {
+					if k == opComplete {
+						// only meaningful when a fragment is pending
+						pend := strings.HasSuffix(d.Name, "fragment+2-rotated") && len(seq) == 0
+						for _, o := range seq {
+							switch o {
+							case opFragment, opLongFragment:
+								pend = true
+							case opAppend2, opComplete, opLong, opRotate, opTruncWrite, opRemoveCreate, opEcho:
+								pend = false
+							}
+						}
+						if !pend {
+							continue
 						}
 					}
-					if !pend {
-						continue
-					}
+					rec(append(append([]opKind{}, seq...), k))
 				}
-				rec(append(append([]opKind{}, seq...), k))
 			}
+			rec(nil)
 		}
-		rec(nil)
 	}
+	shortRead = 0
+	depth++
 	// a change of the live file, with its event, DURING the initial reads: the consumer of Lines() takes h-1
 	// lines and stalls, the live file is appended to (Write event delivered while the initial read is parked),
 	// the consumer resumes, and a later append flushes whatever the ignored event left unread
@@ -581,7 +601,7 @@ func runC20(t *testing.T, run *mc.Run) int {
 		samples = samples[:8]
 	}
 	cov := mc.Coverage{Level: "model_checking", States: n, Transitions: n * depth, Traces: n, Evaluations: n, Distinct: withRotation, Exhaustive: complete, Samples: samples,
-		Rule:  fmt.Sprintf("the real LogDirReader loop in a synctest bubble over an in-memory file system: every sequence of <=%d operations over {append 2 lines, append a fragment, append a 5 kB fragment, complete it, append a 5 kB line, rotate (rename+create chain), truncate then write, remove then create, append a line exactly as long as the last unterminated tail} from %d small initial directories, each change followed by its fsnotify events one at a time with quiescence in between; plus %d initial directories with 0..12 and sparse (10,100,999) rotated files x {start only, append, rotate+append}; plus, for every small directory, the consumer of Lines() stalled after each number of initial lines while the live file is appended to (event delivered during the initial read), then resumed and flushed by a later append. Oracle: strings from Lines() == reference list. distinct_nontrivial = sequences containing a rotation or truncation", depth, len(small), len(big)),
+		Rule:  fmt.Sprintf("the real LogDirReader loop in a synctest bubble over an in-memory file system: every sequence of <=%d operations over {append 2 lines, append a fragment, append a 5 kB fragment, complete it, append a 5 kB line, rotate (rename+create chain), truncate then write, remove then create, append a line exactly as long as the last unterminated tail} from %d small initial directories (and again, one operation shorter, on a file system whose reads return at most 7 bytes), each change followed by its fsnotify events one at a time with quiescence in between; plus %d initial directories with 0..12 and sparse (10,100,999) rotated files x {start only, append, rotate+append}; plus, for every small directory, the consumer of Lines() stalled after each number of initial lines while the live file is appended to (event delivered during the initial read), then resumed and flushed by a later append. Oracle: strings from Lines() == reference list. distinct_nontrivial = sequences containing a rotation or truncation", depth, len(small), len(big)),
 		Extra: map[string]any{"max_ops": depth, "initial_dirs": len(small) + len(big), "changes_during_initial_read": during}}
 	cov.Assumptions = []string{"testing/synctest semantics; in-memory file system with read-through handles; events delivered one at a time (the property's proviso)"}
 	return run.Finish(cov)
